@@ -1,4 +1,6 @@
 import DoraModel.X64.Lemmas
+import DoraModel.X64.AddrMethods0
+import DoraModel.X64.AddrMethods1
 import DoraModel.X64.ArrayLemmas0
 import DoraModel.X64.ArrayLemmas1
 import DoraModel.X64.ArrayLemmas2
@@ -31,7 +33,7 @@ decoder (`X64/Dec.lean`) and the requested instruction per method (`X64/Spec.lea
   i64 immediate (guard ⇒ decodes to the Spec entry, ¬guard ⇒ refused), and the jump theorems.
 
 What is NOT proved here (compared by the sweep + llvm-mc only): the per-method statements of the 51 methods that take
-an `Address` (their address part is covered by the `address_*_decodes` lemmas, their opcode/REX part only by the sweep),
+an `Address` except `movq_ra`/`movq_ar` with `Address::offset` (the address part of the others is covered by the `address_*_decodes` lemmas, their opcode/REX part only by the sweep),
 `testl_ri` (does not hold: known finding), the four `*round*_ri` AVX forms, and label resolution beyond
 `jumps_land_partial`.
 -/
@@ -359,6 +361,25 @@ theorem call_rel32_ok (avx : Bool) (disp : Int32) :
 
 example : (enc false (call_rel32 (-5))).map decode = .ok (some ({ mnem := .call, ops := [.rel (-5)] }, [])) :=
   call_rel32_ok false (-5)
+
+/-! ## address-taking methods (two representatives; the other 49 are compared by the sweep only) -/
+
+/-- `movq_ra(reg, Address::offset(base, disp))` — a load: both `has_avx2` values, all 16 × 16 registers and **every**
+i32 displacement: the bytes decode to exactly `movq disp(%base), %reg` (the Spec entry), nothing left over. -/
+theorem movq_ra_offset_ok (avx : Bool) (reg base : Fin 16) (disp : Int32) :
+    viaOffset avx (fun a => movq_ra (R reg) a) (R base) disp
+      = .ok (want (Spec.movq_ra (R reg) (.off (R base) disp))) := movq_ra_offset_all avx reg base disp
+
+example : viaOffset false (fun a => movq_ra (R 9) a) (R 12) (-129) = .ok (want (Spec.movq_ra (R 9) (.off (R 12) (-129)))) :=
+  movq_ra_offset_ok false 9 12 (-129)
+
+/-- `movq_ar(Address::offset(base, disp), reg)` — a store: same quantifiers. -/
+theorem movq_ar_offset_ok (avx : Bool) (reg base : Fin 16) (disp : Int32) :
+    viaOffset avx (fun a => movq_ar a (R reg)) (R base) disp
+      = .ok (want (Spec.movq_ar (.off (R base) disp) (R reg))) := movq_ar_offset_all avx reg base disp
+
+example : viaOffset true (fun a => movq_ar a (R 3)) (R 13) 0 = .ok (want (Spec.movq_ar (.off (R 13) 0) (R 3))) :=
+  movq_ar_offset_ok true 3 13 0
 
 /-! ## jumps and label-addressed operands -/
 
